@@ -541,3 +541,23 @@ POSTFIXES = [".a", ".b", ".c", "[0]", "[-1]", "[*]", "[]", "[?a]", "[?b]", "[?c 
 
 def postfix_chain(rng, nmax=5):
     return rng.choice(["a", "b", "@.a", "*", "a[0]"]) + "".join(rng.choice(POSTFIXES) for _ in range(rng.randrange(2, nmax + 1)))
+
+
+def respell_numbers(rng, enc):
+    """the same document with some numbers respelled in another representation of (nearly) the same value: u1 <-> 1.0, 2^53+1 <-> 2^53, 0.0 <-> -0.0"""
+    import struct
+    out = []
+    for t in enc.split(" "):
+        if t[0] in "ui" and rng.random() < 0.7:
+            try:
+                out.append(f64_bits(float(int(t[1:]))))
+                continue
+            except OverflowError:
+                pass
+        elif t[0] == "d" and rng.random() < 0.7:
+            x = struct.unpack("<d", struct.pack("<Q", int(t[1:], 16)))[0]
+            if x == int(x) and abs(x) < 2 ** 63:
+                out.append(("u%d" % int(x)) if x >= 0 and str(x)[0] != "-" else ("i%d" % int(x)) if x < 0 else f64_bits(0.0))
+                continue
+        out.append(t)
+    return " ".join(out)
